@@ -603,9 +603,12 @@ PROPS["C05"] = {
                "of its shared-memory operations, then a quiescent reset_all: no lost, no phantom, never more deliveries "
                "than notifications", bounds="unwind 12; ids {1,8,9}; 2 notifications"),
         H("c05::sched::c05_s_reset_next_race", crate="hs", covers=2, timeout=3000, mem_gb=12, tiers=("quick",),
+          # the quiescent reset_all needs 9 unwindings (8 bits per element); the retry loops get their own bounds:
+          # set_bit only runs uninterrupted (notifier), clear_bit of the preempted listener can fail once per notification
+          unwindset={"bit_set&7set_bit": 2, "bit_set&9clear_bit": 4, "bit_set&10reset_next": 5},
           what="listener draining with reset_next (FixedSizeBitSet<3>) under the same race, then a quiescent reset_all; "
                "reset_next finds something whenever a completed notification was pending",
-          bounds="unwind 6; ids 0..2; 2 notifications"),
+          bounds="unwind 10; ids 0..2; 2 notifications"),
         H("c05::sched::c05_s_bitset_drain_race", crate="hs", covers=2, timeout=7200, mem_gb=30, tiers=("thorough",),
           what="listener draining (reset_all, reset_next, reset_all) while up to 3 notifications land at any of its "
                "shared-memory operations: no lost, no phantom, never more deliveries than notifications",
@@ -615,7 +618,7 @@ PROPS["C05"] = {
           what="real event hand-shake (Handle::notify / Waiter::drain_events) over KStorage + counting trigger: 3 symbolic "
                "notify/try_wait/blocking_wait steps; delivered == notified-and-undelivered; no sleep while pending",
           bounds="unwind 16; ids <= 3"),
-        H("cal::c05ev::c05_ev_notify_races_wait", features=CAL, covers=2, timeout=3600, mem_gb=12,
+        H("cal::c05ev::c05_ev_notify_races_wait", features=CAL, covers=2, timeout=3600, mem_gb=22,
           unwindset={"bit_set&7set_bit": 2, "bit_set&9reset_all&.1": 2},
           what="a notification wakes the listener inside its wait call (or at the start of the drain) and a second one "
                "(id symbolic) completes while the collected ids are handed to the callback; the following wait delivers "
